@@ -1473,6 +1473,17 @@ def run(ctx):
             strict = rng.choice([0, 0, 1, 2])
             nsys = rng.choice([2, 2, 2, 1, 3])
             run_ctx_sequence(ctx, drv, gen_ctx_ops(rng, rng.randrange(3, 25)), strict, nsys)
+        if getattr(ctx, "driver_ok", True) and not ctx.broken:
+            recorded = []
+            for n, part in [(3, [[2], [1], [0]]), (3, [[1], [0, 2]])]:
+                c = case_proj(rng, n, part, "named")
+                recorded.append((c, run_case(ctx, drv, c)))
+            c = case_frame(rng, 2, 2, "arg")
+            recorded.append((c, run_case(ctx, drv, c)))
+            c = dict(kind="witness", stmts=WITNESSES[4][1] + WITNESSES[5][1],
+                     meta=dict(key="dotf:locals", expect={}))
+            recorded.append((c, run_case(ctx, drv, c)))
+            kernel_obligation(ctx, recorded)
         ctx.extra["in_model_fraction"] = round(
             ctx.hist.get("tie-cases", 0) / max(1, sum(v for k, v in ctx.hist.items() if k.startswith("kind:"))), 4)
     finally:
@@ -1501,3 +1512,121 @@ def replay(ctx, case):
             drv.close()
     print("replay:", "oracle failures:", json.dumps(ctx.oracle_failures, default=str)[:3000],
           "mismatches:", json.dumps(ctx.mismatches, default=str)[:3000])
+
+
+# --------------------------------------------------------------------------- per-run kernel obligation
+
+def _sexp(s):
+    toks = s.replace("(", " ( ").replace(")", " ) ").split()
+    pos = [0]
+
+    def rd():
+        t = toks[pos[0]]
+        pos[0] += 1
+        if t != "(":
+            return t
+        out = []
+        while toks[pos[0]] != ")":
+            out.append(rd())
+        pos[0] += 1
+        return out
+    r = rd()
+    assert pos[0] == len(toks), s
+    return r
+
+
+def _lean_str(name):
+    return '"' + name.replace("\\", "\\\\").replace('"', '\\"') + '"'
+
+
+def _lean_val(t):
+    if t == "U":
+        return ".undef"
+    tag = t[0]
+    if tag == "i":
+        n = int(t[1])
+        return f"(.int {n})" if n >= 0 else f"(.int ({n}))"
+    if tag == "r":
+        return f"(.real 0x{t[1]})"
+    if tag == "c":
+        return f"(.chr {t[1]})"
+    if tag in ("y", "s"):
+        return f"(.{'sym' if tag == 'y' else 'str'} [{', '.join(t[1:])}])"
+    if tag == "L":
+        return "(.list [" + ", ".join(_lean_val(x) for x in t[1:]) + "])"
+    raise Unsupported(tag)
+
+
+def _lean_expr(t):
+    """wire tree -> Lean term of type Klong.C03.Expr"""
+    if t == "H":
+        return ".hole"
+    tag = t[0]
+    op = lambda tok: _lean_str("".join(chr(int(c)) for c in tok.split(".")))  # noqa: E731
+    lst = lambda xs: "[" + ", ".join(_lean_expr(x) for x in xs) + "]"  # noqa: E731
+    if tag == "lit":
+        return f"(.lit {_lean_val(t[1])})"
+    if tag == "sym":
+        return f"(.sym {_lean_str(t[1])})"
+    if tag == "lam":
+        return f"(.lam {_lean_str(t[1])})"
+    if tag == "op1":
+        return f"(.op1 {op(t[1])} {_lean_expr(t[2])})"
+    if tag == "op2":
+        return f"(.op2 {op(t[1])} {_lean_expr(t[2])} {_lean_expr(t[3])})"
+    if tag == "asg":
+        return f"(.asg {_lean_str(t[1])} {_lean_expr(t[2])})"
+    if tag in ("fn", "callN"):
+        return f"(.{tag} {_lean_expr(t[1])} {t[2]})"
+    if tag in ("proj", "call"):
+        return f"(.{tag} {_lean_expr(t[1])} {lst(t[2])} {t[3]})"
+    if tag == "prog":
+        return f"(.prog {lst(t[1:])})"
+    if tag == "cond":
+        return f"(.cond {_lean_expr(t[1])} {_lean_expr(t[2])} {_lean_expr(t[3])})"
+    if tag in ("each", "over"):
+        return f"(.{tag} {_lean_expr(t[1])} {_lean_expr(t[2])})"
+    raise Unsupported(tag)
+
+
+def kernel_obligation(ctx, recorded):
+    """a few cases of this run, evaluated by the Lean KERNEL (`decide +kernel`, no compiled driver in
+    between) against what the real interpreter returned: result or error class and context depth"""
+    src = ["import Klong.Props.C03", "open Klong Klong.C03", "namespace C03Run",
+           'def p0 : St := { ctx := (freshCtx.setD "boom" (.callN (.lam "boom") 1)).setD "log" (.callN (.lam "log") 1) }']
+    checks = 0
+    for ci, (case, obs) in enumerate(recorded):
+        prev = "p0"
+        props = []
+        try:
+            for i, o in enumerate(obs):
+                term = _lean_expr(_sexp(parse_wire(o["text"])))
+                name = f"r{ci}_{i}"
+                src.append(f"def {name} := eval {FUEL} {term} {{ {prev} with log := [] }}")
+                prev = f"{name}.2"
+                props.append(f"{name}.2.ctx.depth = {o['depth1']}")
+                out = o["out"]
+                if out.startswith("ok (lit (i ") and out.endswith("))"):
+                    n = int(out[len("ok (lit (i "):-2])
+                    props.append(f"obsInt {name}.1 = {n}" if n >= 0 else f"obsInt {name}.1 = ({n})")
+                elif out.startswith("err "):
+                    props.append(f"obsErr {name}.1 = some .{out[4:]}")
+                elif out.startswith("ok (lit (L"):
+                    try:
+                        v = _plain_of_wire(out[3:])
+                        if all(isinstance(q, int) for q in v):
+                            props.append(f"obsInts {name}.1 = some [{', '.join(str(q) for q in v)}]")
+                    except Unsupported:
+                        pass
+        except Exception:  # noqa: BLE001 - a case the printer does not cover is simply not used
+            continue
+        if props:
+            src.append("example : " + " ∧ ".join(props) + " := by decide +kernel")
+            checks += 1
+    src.append("end C03Run")
+    if not checks:
+        return
+    ok, out = common.lean_run("\n".join(src) + "\n", timeout=600)
+    ctx.obligation(f"kernel evaluation of {checks} recorded cases equals the real interpreter's observations",
+                   ok, out[-800:])
+    ctx.extra["kernel_checked_cases"] = checks
